@@ -8,7 +8,52 @@ _FIX = os.path.join(os.path.dirname(os.path.dirname(os.path.abspath(__file__))),
 _cache = {}
 
 
+def _factor(n, e, d):
+    """p, q from a key pair (the textbook method: a non-trivial square root
+    of 1 mod n out of e*d - 1)"""
+    from math import gcd
+    k = e * d - 1
+    t = k
+    while t % 2 == 0:
+        t //= 2
+    for g in range(2, 200):
+        x = pow(g, t, n)
+        while x not in (1, n - 1):
+            y = pow(x, 2, n)
+            if y == 1:
+                p = gcd(x - 1, n)
+                return p, n // p
+            if y == n - 1:
+                break
+            x = y
+    raise ValueError('could not factor the fixture modulus')
+
+
+def _int_der(v):
+    b = v.to_bytes(v.bit_length() // 8 + 1, 'big')
+    return _der_tlv(0x02, b)
+
+
 def key(bits):
+    """bits: 1024 | 2048 (fixture keys, e = 65537), or '<bits>e<e>': the
+    same modulus with another public exponent (3, 17, 257 ...; RSA does not
+    prescribe F4) and the matching private exponent"""
+    if isinstance(bits, str) and 'e' in bits and bits not in _cache:
+        from math import gcd
+        base = key(int(bits.split('e')[0]))
+        e2 = int(bits.split('e')[1])
+        p_, q_ = _factor(base['n'], base['e'], base['d'])
+        lam = (p_ - 1) * (q_ - 1) // gcd(p_ - 1, q_ - 1)
+        if gcd(e2, lam) != 1:
+            raise ValueError('exponent %d does not suit the fixture key' % e2)
+        d2 = pow(e2, -1, lam)
+        pkcs1 = _der_tlv(0x30, _int_der(base['n']) + _int_der(e2))
+        oid = bytes.fromhex('2a864886f70d010101')
+        spki = _der_tlv(0x30, _der_tlv(0x30, _der_tlv(0x06, oid) +
+                                       bytes([0x05, 0x00])) +
+                        _der_tlv(0x03, b'\x00' + pkcs1))
+        _cache[bits] = {'bits': bits, 'n': base['n'], 'e': e2, 'd': d2,
+                        'der': spki}
     if bits not in _cache:
         with open(os.path.join(_FIX, 'rsa%d.json' % bits)) as f:
             k = json.load(f)
